@@ -11,7 +11,7 @@ ID = 'C20'
 LEVEL = 'exploration'
 BUDGET = {'quick': 240, 'thorough': 3000}
 CHUNK = 1
-RULE = ('(a) Simulated read pairs (genome 3..8 kb, coverage 10..80, error rate 0..3%, N, both orientations, 30% with a high-copy homopolymer/tandem element whose k-mers are seen > 1000 times, all odd k, both '
+RULE = ('(a) Simulated read pairs (genome 3..8 kb, coverage 10..80, error rate 0..3%, N, both orientations, a third trimmed to lengths from exactly k upwards and/or with unequal numbers of records in the two files, 30% with a high-copy homopolymer/tandem element whose k-mers are seen > 1000 times, all odd k, both '
         'strand modes) through `ska cov` and through the hooked library: every table row against the exact number of distinct '
         'canonical split k-mers seen that many times (set-based model), table length = last multiplicity shared by >= 50 '
         'k-mers, rows numbered 1.., cutoff = smallest i>=1 with w0*Pois(i;1) < (1-w0)*Pois(i;c) at the fitted (w0,c) read '
@@ -26,7 +26,8 @@ ASSUMPTIONS = ['when the optimiser does not converge (possible at 0% error) coun
                'numerical gradient: central differences, relative tolerance 1e-4; decisive comparisons closer than 1e-9 are skipped']
 REQUIRED = {t: ['readsets_counting_judged', 'readsets_cutoff_judged', 'rows_compared', 'labels_checked', 'gradient_points',
                 'likelihood_points', 'cutoff_points', 'cli_runs', 'truncation_cases', 'truncation_exactly_50',
-                'readsets_with_kmers_seen_over_1000_times', 'likelihood_points_on_later_histograms_of_a_process', 'damaged_input_refused'] for t in ('quick', 'thorough')}
+                'readsets_with_kmers_seen_over_1000_times', 'likelihood_points_on_later_histograms_of_a_process', 'damaged_input_refused',
+                'readsets_with_reads_of_exactly_k', 'readsets_with_unequal_files'] for t in ('quick', 'thorough')}
 
 SUITE_COUNTS = [44633459, 950672, 104410, 44137, 24170, 21232, 21699, 24145, 30696, 39210, 49878, 63683, 77690, 95147,
                 112416, 130307, 146531, 160932, 175130, 185113, 193149, 197468, 199189, 198235, 192150, 185565, 176362,
@@ -125,7 +126,7 @@ def py_cutoff(w0, c, maxc):
     return i, margin
 
 
-def sim_reads(rng):
+def sim_reads(rng, k=None):
     glen = rng.randint(3000, 8000)
     genome = G.rseq(rng, glen)
     cov = rng.randint(10, 80)
@@ -147,6 +148,23 @@ def sim_reads(rng):
         if rng.random() < 0.5:
             s = M.rc_n(s)
         reads[r % 2].append(s)
+    shape = None
+    if k is not None and rng.random() < 0.35:
+        # trimmed reads: lengths from exactly k (one window) up to the full length, a few shorter than k; and / or files with
+        # unequal numbers of records (mates dropped from one file)
+        shape = []
+        if rng.random() < 0.7:
+            for j in (0, 1):
+                for i in range(len(reads[j])):
+                    if rng.random() < 0.4:
+                        L_ = rng.choice([k, k, k + 1, k - 1, rng.randint(k, RL)])
+                        reads[j][i] = reads[j][i][:L_] if len(reads[j][i]) > L_ and L_ > 0 else reads[j][i]
+            shape.append('trimmed to >= k-1')
+        if rng.random() < 0.6:
+            j = rng.randrange(2)
+            reads[j] = [r_ for r_ in reads[j] if rng.random() < 0.75]
+            shape.append('file %d thinned' % j)
+        shape = ', '.join(shape) or None
     hi = None
     if rng.random() < 0.3:
         # a high-copy element: reads made of a homopolymer or a short tandem repeat, enough of them for split k-mers seen
@@ -159,7 +177,7 @@ def sim_reads(rng):
                 s = M.rc_n(s)
             reads[r % 2].insert(rng.randrange(len(reads[r % 2]) + 1), s)
         hi = '%s x %d reads' % (unit, nhi)
-    return reads, {'genome_length': glen, 'coverage': cov, 'error_rate': err, 'read_length': RL, 'high_copy': hi}
+    return reads, {'genome_length': glen, 'coverage': cov, 'error_rate': err, 'read_length': RL, 'high_copy': hi, 'shape': shape}
 
 
 def parse_harness_cov(out):
@@ -215,7 +233,13 @@ def judge_table(res, sig, rows, exp_counts, w0, c, cutoff, detail, what):
 def run_reads(desc, ctx, res):
     k, rcmode = desc['k'], desc['rc']
     rng = random.Random(desc['seed'])
-    reads, params = sim_reads(rng)
+    reads, params = sim_reads(rng, k)
+    if params.get('shape'):
+        res.count('readsets_trimmed_or_unequal')
+        if any(len(r_) == k for r_ in reads[0] + reads[1]):
+            res.count('readsets_with_reads_of_exactly_k')
+        if len(reads[0]) != len(reads[1]):
+            res.count('readsets_with_unequal_files')
     for j in (0, 1):
         ctx.write('r%d.fastq' % j, ''.join('@r%d\n%s\n+\n%s\n' % (i, s, 'I' * len(s)) for i, s in enumerate(reads[j])))
     cnt = count_split_kmers(reads[0] + reads[1], k, rcmode)
